@@ -91,7 +91,9 @@ ContainerChecks(r) ==
             IF r.rd = "false" THEN r.type = "tuple"
             ELSE /\ r.type = "dict"
                  /\ LET p == IF r.rd = "prefix" THEN r.prefix ELSE ""
-                    IN  {r.keys[i] : i \in 1..Len(r.keys)} = {p \o "sdr", p \o "sir", p \o "snr"}>> >>
+                    IN  {r.keys[i] : i \in 1..Len(r.keys)} = {p \o "sdr", p \o "sir", p \o "snr"}>>,
+          \* the value under (prefix +) "sdr" / "sir" / "snr" is bit-identical to the tuple entry of the same name
+          <<"values_by_name", r.values_same>> >>
 
 Checks(r) == CASE r.kind = "sisdr" -> SiChecks(r) [] r.kind = "input" -> InChecks(r)
                [] r.kind = "sisdr_hi" -> SiHiChecks(r) [] r.kind = "output" -> OutChecks(r) [] r.kind = "snr" -> SnrChecks(r)
